@@ -74,7 +74,10 @@ Definition spec_type (m : amember) : Z :=
   if (a_type m =? 0) && s_ends_slash (a_name m) then 53 else a_type m.
 Definition spec_name (m : amember) : list Z :=
   let n := if spec_type m =? 53 then s_rstrip_slash (a_name m) else a_name m in
-  match a_prefix m with [] => n | p => p ++ [47] ++ n end.
+  match a_prefix m with
+  | [] => n
+  | p => if s_mem (spec_type m) [76; 75; 83] then n else p ++ [47] ++ n     (* GNU types do not use the prefix *)
+  end.
 
 Definition stored_away (m : amember) : bool := a_visor m && negb (a_voff m =? 0).
 Definition inline (m : amember) : bool := negb (stored_away m) && s_has_data (spec_type m).
@@ -114,23 +117,87 @@ Definition field_ok (n : Z) (s : list Z) : bool := (zlen s <=? n) && no_nul s &&
 Definition oct_ok (w : Z) (v : Z) : bool := (0 <=? v) && (v <? 8 ^ (w - 1)).
 Definition u32_ok (v : Z) : bool := (0 <=? v) && (v <? 4294967296).
 
-Definition wf_memberb (m : amember) : bool :=
+(* what every header must satisfy *)
+Definition wf_hdrb (m : amember) : bool :=
   field_ok 100 (a_name m) && field_ok 100 (a_link m) && field_ok 32 (a_uname m) && field_ok 32 (a_gname m)
   && field_ok (if a_visor m then 150 else 155) (a_prefix m)
   && oct_ok 8 (a_mode m) && oct_ok 8 (a_uid m) && oct_ok 8 (a_gid m) && oct_ok 12 (a_size m)
   && oct_ok 12 (a_mtime m) && oct_ok 8 (a_devmajor m) && oct_ok 8 (a_devminor m)
   && (0 <=? a_type m) && (a_type m <? 256)
-  && negb (s_mem (a_type m) [76; 75; 83; 120; 103; 88])          (* L K S x g X are not plain members *)
+  && negb (s_mem (a_type m) [83; 120; 103; 88])                  (* S x g X: sparse and pax are not covered *)
   && (zlen (a_magic m) =? 8) && bytes_okb (a_magic m)
   && Bool.eqb (s_list_eqb (firstn 7 (a_magic m)) visor7) (a_visor m)
   && u32_ok (a_voff m) && u32_ok (a_vres m) && u32_ok (a_text m) && u32_ok (a_fix m)
+  && bytes_okb (a_data m).
+
+(* a member proper *)
+Definition wf_memberb (m : amember) : bool :=
+  wf_hdrb m
+  && negb (s_mem (a_type m) [76; 75])                            (* L K are records, not members *)
   (* a visor member that has content records where it is *)
   && (negb (a_visor m && s_has_data (spec_type m) && (0 <? a_size m)) || negb (a_voff m =? 0))
   (* a visor member never has blocks after its header; a standard one has its padded content *)
   && (if a_visor m then zlen (a_data m) =? 0
       else zlen (a_data m) =? (if s_has_data (spec_type m) then s_block (a_size m) else 0))
-  && bytes_okb (a_data m)
   (* a directory has a name besides its trailing slashes *)
   && (negb (spec_type m =? 53) || match s_rstrip_slash (a_name m) with [] => false | _ => true end).
 
 Definition wf_archiveb (a : list amember) : bool := forallb wf_memberb a.
+
+(* ---------- GNU long name / long link records ---------- *)
+(* An item is a member, possibly preceded by records of type L (long name) or K (long link name):
+   a header like any other followed by the NUL-terminated string in padded blocks; the string
+   replaces the name / link name of the member the item ends with.  In a vmtar archive such a
+   record may carry the visor magic (with no data offset). *)
+Inductive item :=
+| IMember (m : amember)
+| ILong (r : amember) (next : item).
+
+Fixpoint s_nts (s : list Z) : list Z :=
+  match s with [] => [] | b :: r => if b =? 0 then [] else b :: s_nts r end.
+Definition s_removesuffix_slash (s : list Z) : list Z :=
+  match rev s with b :: r => if b =? 47 then rev r else s | [] => s end.
+
+Fixpoint render_item (it : item) : list Z :=
+  match it with
+  | IMember m => member_bytes m
+  | ILong r next => member_bytes r ++ render_item next
+  end.
+Definition render_items (l : list item) : list Z := flat_map render_item l.
+
+Fixpoint item_len (it : item) : Z :=
+  match it with
+  | IMember m => 512 + zlen (a_data m)
+  | ILong r next => 512 + zlen (a_data r) + item_len next
+  end.
+
+(* the entry of an item whose first header is at [pos]: the entry of its member, found under the
+   position of the first record, renamed by the records (outermost record of a kind wins) *)
+Fixpoint entry_item (pos : Z) (it : item) : entry :=
+  match it with
+  | IMember m => entry_of pos m
+  | ILong r next =>
+    let e := entry_item (pos + 512 + zlen (a_data r)) next in
+    let str := s_nts (a_data r) in
+    let name := if a_type r =? 76 then str else e_name e in
+    let link := if a_type r =? 75 then str else e_link e in
+    let name' := if e_type e =? 53 then s_removesuffix_slash name else name in
+    mke name' link (e_type e) (e_size e) pos (e_data e) (e_visor e) (e_text e) (e_fix e)
+  end.
+
+Fixpoint listing_items (pos : Z) (l : list item) : list entry :=
+  match l with
+  | [] => []
+  | it :: r => entry_item pos it :: listing_items (pos + item_len it) r
+  end.
+
+Definition wf_recordb (r : amember) : bool :=
+  wf_hdrb r && s_mem (a_type r) [76; 75] && negb (stored_away r)
+  && (zlen (a_data r) =? s_block (a_size r)).
+
+Fixpoint wf_itemb (it : item) : bool :=
+  match it with
+  | IMember m => wf_memberb m
+  | ILong r next => wf_recordb r && wf_itemb next
+  end.
+Definition wf_itemsb (l : list item) : bool := forallb wf_itemb l.
